@@ -95,8 +95,34 @@ pub fn check(c: &(M, M), obs: &mut Obs) -> Result<(), String> {
         // C04's business; reported here only as context
         obs.label("library-compare-disagrees-with-model");
     }
-    if got == want {
+    // a document given as JSON text has the key of the document the text denotes
+    if a.all_finite() && a.size() < 2000 {
+        let an = a.unsigned_norm();
+        let text = crate::textref::model_text(&an, &[(ka.len() as u16).wrapping_mul(31), 7, 2]);
+        let mut kt = Vec::new();
+        nopanic("convert_to_comparable(text)", || jsonb::convert_to_comparable(&text, &mut kt))?;
+        let kn = key(&an)?;
+        if kt != kn {
+            return Err(format!(
+                "the JSON text {:?} gets the key {}, the same document as JSONB gets {}",
+                String::from_utf8_lossy(&text),
+                hex(&kt),
+                hex(&kn)
+            ));
+        }
+        obs.label("text-form-key");
+    }
+    if got == libc {
         return Ok(());
+    }
+    if libc != want {
+        // the known findings below are about the key format against a correct compare; a
+        // compare that departs from the documented order is not one of them
+        return Err(format!(
+            "key order is {got:?}, the library's compare gives {libc:?} (the documented order is {want:?})\n  a = {a:?}\n  key(a) = {}\n  b = {b:?}\n  key(b) = {}",
+            hex(&ka),
+            hex(&kb)
+        ));
     }
     let msg = format!(
         "key order is {got:?}, compare order is {want:?} (library's compare: {libc:?})\n  a = {a:?}\n  key(a) = {}\n  b = {b:?}\n  key(b) = {}",
@@ -108,6 +134,11 @@ pub fn check(c: &(M, M), obs: &mut Obs) -> Result<(), String> {
     // zeros really get different keys (they did before the F14b repair)
     if zero_pair_before_diff(a, b) && key(&M::Num(N::U(0)))? != key(&M::Num(N::F(-0.0)))? {
         return known::tolerate("C14", "F14b", obs, format!("0 and -0.0 compare Equal but get different keys: {msg}"));
+    }
+    // the two remaining known findings are flaws of the documented key format itself: they
+    // apply only when the library's keys are exactly the keys of that format
+    if ka != ref_key(a) || kb != ref_key(b) {
+        return Err(format!("{msg}\n  (the keys are not the documented key format: {} / {})", hex(&ref_key(a)), hex(&ref_key(b))));
     }
     match first_diff(a, b) {
         Diff::Str { proper_prefix: true, .. } => known::tolerate(
@@ -129,7 +160,11 @@ pub fn check(c: &(M, M), obs: &mut Obs) -> Result<(), String> {
 fn run(ctx: &mut Ctx) {
     let cases = ctx.share(ctx.tier.pick(300_000, 4_000_000));
     let p = ctx.tier.pick(TreeParams::quick(), TreeParams::thorough()).with_big(2);
-    let strat = (super::c04::arb_triple(p), any::<bool>()).prop_map(|((a, b, c), w)| if w { (a, b) } else { (b, c) });
+    let strat = prop_oneof![
+        8 => (super::c04::arb_triple(p), any::<bool>()).prop_map(|((a, b, c), w)| if w { (a, b) } else { (b, c) }),
+        // two adjacent children of one container (near-equal siblings, re-split keys, re-typed numbers)
+        1 => (arb_doc(p), any::<u16>()).prop_map(|(a, sel)| sibling_pair(&a, sel)),
+    ];
     run_strategy(ctx, "C14", "pairs", cases, strat, check);
 }
 
